@@ -311,6 +311,10 @@ class Evaluator:
             c, x, y = cells
             if c.ty != "bool":
                 raise Unsupported("case condition")
+            if self.null_mode == "value" and x.ty != y.ty and "bool" in (x.ty, y.ty):
+                # Case::value returns the taken branch's value in its own variant; a Boolean against a number cannot be
+                # given one static type here (numbers of different variants can: the image check is injection tolerant)
+                raise Unsupported("case branches of boolean and numeric variants")
             ty = x.ty if x.ty == y.ty else self.numeric_common([x, y])
             x, y = (b.promote(x, ty), b.promote(y, ty)) if x.ty != y.ty else (x, y)
             take = land([lnot(c.n), c.t])
